@@ -6,7 +6,7 @@ TRIVIAL = {"DIV-CONST", "TYPE", "WIDEN-OK"}
 
 E1_CLAUSE = ("every panic site (explicit panic/assert/unreachable, listed std panicking calls, MIR Assert "
              "terminators) reachable over the resolved call graph from the root set is discharged by a sound "
-             "local rule (LEN-GUARD, CONST-OK, WIDEN-OK, DIV-CONST, INTERVAL, UNREACHABLE-BLOCK), carries a "
+             "local rule (LEN-GUARD, CONST-OK, WIDEN-OK, DIV-CONST, INTERVAL, OP-ARG, UNREACHABLE-BLOCK), carries a "
              "reviewed reason, or is a listed known finding")
 
 
